@@ -33,7 +33,23 @@ var solvers = []solverSpec{
 	}},
 }
 
+func expandConstArr(c string, cvc5 bool) string {
+	f := strings.Split(strings.TrimPrefix(c, ";;CONSTARR "), "\t")
+	if len(f) != 4 {
+		return c
+	}
+	name, idx, elem, term := f[0], f[1], f[2], f[3]
+	if cvc5 {
+		return fmt.Sprintf("(declare-const %s (Array %s %s))\n(assert (forall ((ci %s)) (! (= (select %s ci) %s) :pattern ((select %s ci)))))", name, idx, elem, idx, name, term, name)
+	}
+	return fmt.Sprintf("(define-fun %s () (Array %s %s) ((as const (Array %s %s)) %s))", name, idx, elem, idx, elem, term)
+}
+
 func (o *Obligation) script(w *World, cover bool, withModel bool) string {
+	return o.scriptFor(w, cover, withModel, false)
+}
+
+func (o *Obligation) scriptFor(w *World, cover bool, withModel bool, cvc5 bool) string {
 	var b strings.Builder
 	if withModel {
 		b.WriteString("(set-option :produce-models true)\n")
@@ -41,6 +57,9 @@ func (o *Obligation) script(w *World, cover bool, withModel bool) string {
 	b.WriteString("(set-logic ALL)\n")
 	b.WriteString(w.so.prelude())
 	for _, c := range o.vc.cmds[:o.Prefix] {
+		if strings.HasPrefix(c, ";;CONSTARR ") {
+			c = expandConstArr(c, cvc5)
+		}
 		b.WriteString(c)
 		b.WriteByte('\n')
 	}
@@ -102,6 +121,9 @@ func discharge(w *World, obls []*Obligation, opt dischargeOpts) {
 			o.Status, o.Solver = "unsat", "syntactic"
 			continue
 		}
+		if o.vc == nil {
+			continue // binding failures carry their verdict already
+		}
 		wg.Add(1)
 		sem <- struct{}{}
 		go func(i int, o *Obligation) {
@@ -123,6 +145,7 @@ func dischargeOne(w *World, i int, o *Obligation, opt dischargeOpts) {
 	var outputs []string
 	total := 0.0
 	answered := 0
+	cvcFile := strings.TrimSuffix(file, ".smt2") + ".cvc5.smt2"
 	for si, s := range solvers {
 		t := opt.timeoutS
 		if isCover {
@@ -138,7 +161,13 @@ func dischargeOne(w *World, i int, o *Obligation, opt dischargeOpts) {
 			// later solvers only get a chance when the first could not decide
 			t = opt.timeoutS
 		}
-		st, out, secs := runSolver(s, file, t, opt.seed)
+		useFile := file
+		if s.bin == "cvc5" {
+			if err := os.WriteFile(cvcFile, []byte(o.scriptFor(w, isCover, false, true)), 0o644); err == nil {
+				useFile = cvcFile
+			}
+		}
+		st, out, secs := runSolver(s, useFile, t, opt.seed)
 		total += secs
 		outputs = append(outputs, fmt.Sprintf("[%s] %s (%.2fs)", s.name, st, secs))
 		if st == "error" {
